@@ -228,3 +228,51 @@ def validate(ck, traces, chunk=2000):
         for i in range(len(part)):
             out.append(((i + 1) in acc, info.get(i)))
     return out
+
+
+# ---------------------------------------------------------------------------
+# deterministic schedules of the worker threads (spec/SshSched.tla -> harness/sched.py)
+# ---------------------------------------------------------------------------
+_PLAN_CACHE = {}
+
+
+def schedule_plans(ck, ops, max_preempt):
+    """Every schedule of len(ops) workers performing ops[w] network operations with at most max_preempt preemptions, as TLC enumerates
+    them from SshSched.tla.  -> (plans, covered) where covered is the set of positions (i, j, ..) some plan visits."""
+    from harness import tlc, common
+    key = (tuple(ops), max_preempt)
+    if key in _PLAN_CACHE:
+        return _PLAN_CACHE[key]
+    mod = '---- MODULE MC_SshSched ----\nEXTENDS SshSched\nOpsDef == <<%s>>\n====\n' % ', '.join(str(n) for n in ops)
+    cfg = 'SPECIFICATION Spec\nCONSTANTS\n Ops <- OpsDef\n MaxPreempt = %d\nINVARIANT PlanIsSchedule\nINVARIANT PreemptBound\nINVARIANT Emit\nINVARIANT EmitSeen\n' % max_preempt
+    res = tlc.run('MC_SshSched', cfg, generated={'MC_SshSched.tla': mod}, workers=1, timeout=1500)
+    ck.add_tlc(res)
+    common.require(res.ok, 'SshSched: %s violated:\n%s' % (res.violated, '\n'.join(res.trace[-30:])))
+    plans, covered = [], set()
+    seen_plans = set()
+    for p in res.prints:
+        if isinstance(p, dict) and 'plan' in p:
+            t = tuple(tuple(x) for x in p['plan'])
+            if t not in seen_plans:
+                seen_plans.add(t)
+                plans.append([list(x) for x in p['plan']])
+        elif isinstance(p, dict) and 'seen' in p:
+            covered |= {tuple(x) for x in p['seen']}
+    common.require(plans, 'SshSched emitted no plan')
+    _PLAN_CACHE[key] = (plans, covered)
+    return plans, covered
+
+
+def scheduled(sc, plan, labels, grace=0.4):
+    """The scenario with its worker threads driven through `plan` (segments [worker index, n])."""
+    inner = sc.get('setup')
+
+    def setup(world, inner=inner):
+        from harness import sched as _sched
+        if inner is not None:
+            inner(world)
+        world.sched = _sched.Scheduler(plan, labels, grace=grace)
+    out = dict(sc)
+    out['setup'] = setup
+    out['observe'] = True
+    return out
